@@ -29,6 +29,10 @@ FOREIGN = {"cartesian": "a", "keplerian": "x", "keplerian_mean": "r", "spherical
 
 # a frame that is registered but linked to nothing: conversions to it must fail and leave the object untouched
 _lonely = fr.Frame("VfLonely", orient.Orientation("VfLonelyOrient"), center.Earth)
+# a frame whose axes are ordinary but whose centre is linked to nothing: the rotation part of a conversion to it works (a covariance
+# could follow), the translation part fails - and then nothing at all may have changed
+from beyond.constants import Earth as _EarthBody  # noqa: E402
+_nocentre = fr.Frame("VfNoCentre", orient.TOD, center.Center("VfIsolatedCentre", body=_EarthBody))
 
 
 def fingerprint(o):
@@ -120,7 +124,7 @@ def one(beh, res, clause, kinds):
                 elif op == "failform":
                     a.form = "no_such_form"
                 elif op == "failframe":
-                    a.frame = {"unknown": "NoSuchFrame", "Hill": "Hill", "unconnected": "VfLonely"}[act["x"]]
+                    a.frame = {"unknown": "NoSuchFrame", "Hill": "Hill", "unconnected": "VfLonely", "nocentre": "VfNoCentre"}[act["x"]]
                 elif op == "assign":
                     i = act["y"] - 1
                     before = np.asarray(a, float).copy()
